@@ -625,8 +625,14 @@ class Array(metaclass=MetaArray):
 
     def _update(self, value):
         if is_integer(value):
+            # an integer is the extent of the dynamic dimension (not the
+            # number of items): the shape it stands for must be the same
             ll = value
-            fits = len(self) == ll
+            try:
+                shape = self.__class__._inspect_args(value).shape
+            except Exception:
+                shape = None
+            fits = shape is not None and tuple(shape) == tuple(self._shape)
         else:
             ll = len(value)
             shape = get_shape_from_array(value, len(self._shape))
